@@ -271,6 +271,45 @@ pub fn run(ctx: &mut Ctx) {
         ctx.shape(("depth", depth));
     });
 
+    // ---- the same limit for hidden nodes: two hidden siblings at depth D, then one leaf at each
+    // depth D-1 .. 1 (every leaf stays within the limit when D = 129)
+    ctx.phase("depth-limit-hidden-nodes", 5, |ctx, k| {
+        let depth = [2usize, 127, 128, 129, 130][k as usize];
+        ctx.eval();
+        let internal = gen::public_key(&mut ctx.rng).x_only_public_key().0;
+        let (h1, h2) = (gen::arr32(&mut ctx.rng), gen::arr32(&mut ctx.rng));
+        let scripts: Vec<Vec<u8>> = (1..depth).map(|i| { let mut s = gen::bytes(&mut ctx.rng, 6); s.extend_from_slice(&(i as u16).to_le_bytes()); s }).collect();
+        let res = guard(|| {
+            let mut b = TaprootBuilder::new()
+                .add_hidden(depth, TapNodeHash::from_byte_array(h1))
+                .map_err(|e| format!("{:?}", e))?
+                .add_hidden(depth, TapNodeHash::from_byte_array(h2))
+                .map_err(|e| format!("{:?}", e))?;
+            for (i, sc) in scripts.iter().enumerate() {
+                b = b.add_leaf(depth - 1 - i, Script::from(sc.clone())).map_err(|e| format!("{:?}", e))?;
+            }
+            with_secp(|s| b.finalize(s, internal)).map_err(|e| format!("{:?}", e))
+        });
+        match res {
+            Ok(Ok(info)) => {
+                ctx.check(depth <= 128, "over-deep-tree-accepted/hidden-nodes", || json!({"depth": depth}));
+                let mut t = Tree::Node(Box::new(Tree::Hidden(h1)), Box::new(Tree::Hidden(h2)));
+                for sc in scripts.iter() {
+                    t = Tree::Node(Box::new(t), Box::new(Tree::Leaf { script: sc.clone(), ver: 0xc4 }));
+                }
+                let d = || json!({"hidden_depth": depth});
+                if depth <= 128 {
+                    check_spend_info(ctx, &info, &t, &internal, None, &format!("hidden-depth-{}", depth), &d);
+                }
+            }
+            Ok(Err(e)) => {
+                ctx.check(depth > 128, &format!("tree-with-hidden-nodes-at-depth-{}-refused", depth), || json!({"depth": depth, "err": e}));
+            }
+            Err(p) => ctx.panic_violation("TaprootBuilder", &p, json!({"hidden_depth": depth})),
+        }
+        ctx.shape(("hidden-depth", depth));
+    });
+
     // ---- Huffman trees
     let n = ctx.budget(4_000, 150_000);
     ctx.phase("huffman", n, |ctx, k| {
